@@ -277,7 +277,10 @@ def nat_shapes(h):
                    lambda: Flow(src, tgt, join('res_1', ['city_id'], 'res_2', ['id'], fields={'pop': {}}, mode=mode)).results(), want)
 
 
+from contracts import C10 as _K10   # noqa: E402  (ResourceMatcher: the contract every selector-taking step is checked against)
+
 ITEMS = [
+    _K10._mk_matcher_item(),
     Item('shapes', None, [('deterministic', nat_shapes)], P + 'concatenate.py::concatenate.func'),
     Item('iterable_loader.naming', BA.sym_iterable_loader_naming, [], 'dataflows/helpers/iterable_loader.py::iterable_loader.process_datapackage'),
     Item('delete_resource.func', K10.sym_delete_resource, [], P + 'delete_resource.py::delete_resource.func'),
